@@ -42,6 +42,14 @@ def to_scenario(c):
     elif s == "with-exit":
         prog = [("enter",), ("call", first), ("next", 1, k), ("exit",), ("drop", 1),
                 ("call", {"n": n, "input": "gen"}), ("exhaust", 2)]
+    elif s == "with-exit-overlap":
+        # the with block is left while the generator of run 1 is still alive and unfinished: the object is still running
+        if mode == "ordered":
+            first["hold_after"] = -1
+        else:
+            first["hold_count"] = 0
+        prog = [("enter",), ("call", first), ("next", 1, k, mode, 0), ("exit",), ("call", {"n": n, "input": "gen"}),
+                ("drop", 1), ("call", {"n": n, "input": "gen"}), ("exhaust", 3)]
     elif s == "with-close":
         prog = [("enter",), ("call", first), ("next", 1, k), ("close", 1),
                 ("call", {"n": n, "input": "gen"}), ("exhaust", 2), ("exit",)]
@@ -84,7 +92,7 @@ def judge(cfg, obs):
                 call_exc[c] = r["exc"]
             elif r["exc"][0] != "StopIteration" or r["kind"] != "next":
                 bad.append(("exception-in-%s:%s|%s" % (r["kind"], r["exc"][0], tag), "step %s (call %s) raised %s%r" % (r["kind"], c, r["exc"][0], r["exc"][1])))
-    expect_runtime = {2} if s == "overlap" else set()
+    expect_runtime = {2} if s in ("overlap", "with-exit-overlap") else set()
     for c in sorted(set(list(received) + list(call_exc))):
         if c in expect_runtime:
             continue
@@ -107,7 +115,7 @@ def judge(cfg, obs):
                 bad.append(("not-completion-order|%s" % tag, "unordered generator of call %d yielded %r but batches completed in the order %r" % (c, got, fin)))
         if c in exhausted and sorted(got) != want:
             bad.append(("result-missing|%s" % tag, "exhausted generator of call %d yielded %r instead of all of %r" % (c, got, want)))
-    if s == "overlap":
+    if s in ("overlap", "with-exit-overlap"):
         second = [r for r in obs.steps if r["kind"] == "call" and r.get("call_no") == 2]
         finished_before = second[0].get("tasks_finished_before", {}).get(1, 0) if second else 0
         if finished_before >= n:
@@ -116,7 +124,7 @@ def judge(cfg, obs):
             bad.append(("overlap-not-rejected|%s" % tag, "calling the object during an unfinished run gave %r instead of RuntimeError" % (call_exc.get(2),)))
         if finished_before < n and any(cc == 2 for (cc, _i) in env.exec_log):
             bad.append(("overlap-ran-tasks|%s" % tag, "tasks of the rejected overlapping call were executed"))
-        if 1 not in exhausted:
+        if 1 not in exhausted and s == "overlap":
             bad.append(("overlap-disturbed-first-run|%s" % tag, "the first run could not be exhausted after the rejected call"))
     for name, detail in env.inv_violations:
         bad.append(("%s|%s" % (name, tag), detail))
@@ -146,9 +154,9 @@ def plan(ctx):
         configs.append(dict(base, script="exhaust"))
         configs.append(dict(base, script="prompt"))
         for k in ((0, 2) if quick else range(0, n)):
-            for s in ("close", "drop", "overlap", "with-exit", "with-close"):
+            for s in ("close", "drop", "overlap", "with-exit", "with-exit-overlap", "with-close"):
                 for ab in ("drop", "zombie"):
-                    if s == "overlap" and ab == "zombie":
+                    if s in ("overlap", "with-exit-overlap") and ab == "zombie":
                         continue
                     configs.append(dict(base, script=s, k=k, abort=ab))
     items = []
@@ -171,7 +179,8 @@ def run(ctx):
     items = plan(ctx)
     tot, outcomes, verdicts = PC.run_items(ctx, items, _work, sample_every=max(1, len(items) // 4))
     ctx.rule = ("consumer programs {exhaust; pull one by one under the withholding environment; close / drop / leave the "
-                "with block after k results then a fresh call; second call during an unfinished run} x return_as in "
+                "with block after k results then a fresh call; second call during an unfinished run, also after leaving the with "
+                "block with the generator still alive} x return_as in "
                 "{generator, generator_unordered} x n_jobs x batch_size x pre_dispatch x {pool-like, zombie} environment; all "
                 "schedules within the bounds shown in samples. Promptness is judged at batch granularity. "
                 "distinct_nontrivial = distinct outcomes")
